@@ -3,6 +3,10 @@ import Req.Client.Form
 import Req.Client.Multipart
 import Req.Client.Body
 import Req.Client.Progress
+import Req.Client.EarlyResponse
+import Req.Client.UploadReader
+import Req.Client.ProgressClock
+import Req.Client.SetBody
 /-! Driver lanes of C17. -/
 namespace Req.Driver.L.C17
 open Req.Proto
@@ -92,7 +96,10 @@ def decodeFiles (a b c d e f : String) : Option (List Req.Multipart.File) := do
 def laneMpWrite : List String → String
   | [b, flds, a1, a2, a3, a4, a5, a6] =>
     match decodeHex b, (decodeList flds).bind mkPairs, decodeFiles a1 a2 a3 a4 a5 a6 with
-    | some b, some flds, some files => encodeHex (Req.Multipart.write b flds files)
+    | some b, some flds, some files =>
+      match Req.Multipart.writeChecked b flds files with
+      | .ok body => encodeHex body
+      | .error _ => "err"
     | _, _, _ => "bad-op"
   | _ => "bad-op"
 
@@ -119,10 +126,13 @@ def laneMpE2E : List String → String
   | [b, flds, a1, a2, a3, a4, a5, a6] =>
     match decodeHex b, (decodeList flds).bind mkPairs, decodeFiles a1 a2 a3 a4 a5 a6 with
     | some b, some flds, some files =>
-      match Req.Multipart.serverForm b (Req.Multipart.write b flds files) with
-      | .ok items => showItems items
-      | .error .unsupported => "unsupported"
-      | .error _ => "reject"
+      match Req.Multipart.writeChecked b flds files with
+      | .error _ => "err"
+      | .ok body =>
+        match Req.Multipart.serverForm b body with
+        | .ok items => showItems items
+        | .error .unsupported => "unsupported"
+        | .error _ => "reject"
     | _, _, _ => "bad-op"
   | _ => "bad-op"
 
@@ -241,7 +251,143 @@ def laneProgR : List String → String
     | _, _, _ => "bad-op"
   | _ => "bad-op"
 
+/-! ### early answers while the upload is in flight -/
+
+def decodeProto : String → Option Req.EarlyResponse.Proto
+  | "h1" => some .h1 | "h2" => some .h2 | "h3" => some .h3 | _ => none
+
+def showVerdict : Req.EarlyResponse.Verdict → String
+  | .ok => "ok" | .uploadCut => "upload-cut" | .garbage => "not-a-prefix" | .responseLost => "response-lost"
+
+/-- `c17early <proto> <interim codes> <status|0> <declared|-> <bodySent> <fin> <stop> <finalStatus>
+<uploadComplete> <prefixOK> <obsStatus>` → `may-stop|must-complete <verdict>`: the model's rule for the
+early answer and its judgement of what the origin and the caller observed. -/
+def laneEarly : List String → String
+  | [pr, ints, st, decl, sent, fin, stop, fs, uc, pf, os] =>
+    let r : Option String := do
+      let p ← decodeProto pr
+      let ints ← decodeNatList ints
+      let st ← st.toNat?
+      let decl ← if decl == "-" then some none else decl.toNat?.map some
+      let sent ← sent.toNat?
+      let fs ← fs.toNat?
+      let os ← os.toNat?
+      let x : Req.EarlyResponse.Early := ⟨ints, st, decl, sent, fin == "1", stop == "1"⟩
+      let o : Req.EarlyResponse.Obs := ⟨uc == "1", pf == "1", os⟩
+      pure ((if x.mayStop p then "may-stop " else "must-complete ") ++
+        showVerdict (Req.EarlyResponse.judge p x fs o))
+    r.getD "bad-op"
+  | _ => "bad-op"
+
+/-! ### files given by a reader -/
+
+def mkScript : List Nat → List Bytes → Option (List Req.UploadReader.Rd)
+  | [], [] => some []
+  | k :: ks, b :: bs => do
+    let r ← mkScript ks bs
+    match k with
+    | 0 => pure (.data b :: r)
+    | 1 => pure (.eof b :: r)
+    | 2 => pure (.fail b :: r)
+    | _ => none
+  | _, _ => none
+
+/-- `c17reader <opens> <kinds 0=data 1=eof 2=fail> <chunks>` → `err`, or `ok <bytes of the first read>
+<part content>` (`writeMultipartFormFile` on a scripted reader). -/
+def laneReader : List String → String
+  | [op, kinds, chunks] =>
+    match decodeNatList kinds, decodeList chunks with
+    | some ks, some cs =>
+      match mkScript ks cs with
+      | none => "bad-op"
+      | some script =>
+        if Req.UploadReader.succeeds (op == "1") script then
+          match Req.UploadReader.writeFile (op == "1") script, Req.UploadReader.readCap Req.UploadReader.sniffCap script with
+          | some r, (.data b, _) => "ok " ++ toString b.length ++ " " ++ encodeHex r.written
+          | some r, (.eof b, _) => "ok " ++ toString b.length ++ " " ++ encodeHex r.written
+          | _, _ => "err"
+        else "err"
+    | _, _ => "bad-op"
+  | _ => "bad-op"
+
+/-- `c17progwt <total> <interval> <last0> <ns> <nows>` → `<callback arguments> <times at which the
+interval test fired>` (upload writer under an explicit clock). -/
+def laneProgWT : List String → String
+  | [tot, iv, l0, ns, nows] =>
+    match tot.toInt?, iv.toInt?, l0.toInt?, decodeIntList ns, decodeIntList nows with
+    | some tot, some iv, some l0, some ns, some nows =>
+      if ns.length != nows.length then "bad-op" else
+      let calls := (ns.zip nows).map fun (n, t) => (⟨n, t⟩ : Req.Progress.WCall)
+      showInts (Req.Progress.runWT ⟨0, tot⟩ ⟨l0, iv⟩ calls) ++ " " ++
+        showInts (Req.Progress.intervalTimesW ⟨0, tot⟩ ⟨l0, iv⟩ calls)
+    | _, _, _, _, _ => "bad-op"
+  | _ => "bad-op"
+
+/-- `c17progrt <interval> <last0> <ns> <eof bits> <nows>` → callback arguments of the download
+reader under an explicit clock, then `Close`. -/
+def laneProgRT : List String → String
+  | [iv, l0, ns, eofs, nows] =>
+    match iv.toInt?, l0.toInt?, decodeIntList ns, decodeNatList eofs, decodeIntList nows with
+    | some iv, some l0, some ns, some eofs, some nows =>
+      if ns.length != nows.length || ns.length != eofs.length then "bad-op" else
+      let calls := ((ns.zip eofs).zip nows).map fun ((n, e), t) => (⟨n, e == 1, t⟩ : Req.Progress.RCall)
+      showInts (Req.Progress.runRC ⟨0, 0⟩ (Req.Progress.bitsR ⟨0, 0⟩ ⟨l0, iv⟩ calls))
+    | _, _, _, _, _ => "bad-op"
+  | _ => "bad-op"
+
+/-- `c17progrc <ns> <eof bits> <clock bits>` → callback arguments of the download reader, reads
+then `Close`. -/
+def laneProgRC : List String → String
+  | [ns, eofs, cl] =>
+    match decodeIntList ns, decodeNatList eofs, decodeNatList cl with
+    | some ns, some eofs, some cl =>
+      if ns.length != cl.length || ns.length != eofs.length then "bad-op" else
+      showInts (Req.Progress.runRC ⟨0, 0⟩
+        (((ns.zip eofs).zip cl).map fun ((n, e), c) => ⟨n, e == 1, c == 1⟩))
+    | _, _, _ => "bad-op"
+  | _ => "bad-op"
+
+/-- `c17progfiles <attempts> <totals> <sizes>` → `id:count,…`: `attempts` sends of files 0..k-1
+(`totals` = FileSize, 0 unknown; `sizes` = bytes really written) with a clock that never elapses
+and one write per file (the split does not matter then). -/
+def laneProgFiles : List String → String
+  | [att, tots, szs] =>
+    match att.toNat?, decodeIntList tots, decodeIntList szs with
+    | some att, some tots, some szs =>
+      if tots.length != szs.length then "bad-op" else
+      let files : List Req.Progress.FileRun :=
+        ((List.range tots.length).zip (tots.zip szs)).map fun (i, (t, z)) => ⟨i, t, [⟨z, false⟩]⟩
+      let out := Req.Progress.runAttempts (List.replicate att files)
+      if out.isEmpty then "-" else ",".intercalate (out.map fun (i, x) => toString i ++ ":" ++ toString x)
+    | _, _, _ => "bad-op"
+  | _ => "bad-op"
+
+/-- `c17setbody <class> <bytes>` → the slot `Request.SetBody` fills: `unchanged`, `stream`,
+`raw <hex>`, `provider`, `marshal`. -/
+def laneSetBody : List String → String
+  | [cls, b] =>
+    match decodeHex b with
+    | none => "bad-op"
+    | some b =>
+      let arg : Option Req.SetBody.Arg := match cls with
+        | "nil" => some .untypedNil | "readcloser" => some .readCloser | "reader" => some .reader
+        | "bytes" => some (.bytes b) | "string" => some (.str b) | "func" => some .bodyFunc
+        | "composite" => some .composite | "scalar" => some (.scalar b) | _ => none
+      match arg with
+      | none => "bad-op"
+      | some a => match Req.SetBody.setBody a with
+        | .unchanged => "unchanged" | .stream => "stream" | .raw x => "raw " ++ encodeHex x
+        | .provider => "provider" | .marshal => "marshal"
+  | _ => "bad-op"
+
 def lanes : List (String × (List String → String)) := [
+  ("c17setbody", laneSetBody),
+  ("c17progwt", laneProgWT),
+  ("c17progrt", laneProgRT),
+  ("c17progrc", laneProgRC),
+  ("c17progfiles", laneProgFiles),
+  ("c17reader", laneReader),
+  ("c17early", laneEarly),
   ("c17ordered", laneOrdered),
   ("c17form", laneForm),
   ("c17parseq", laneParseQ),
